@@ -26,6 +26,7 @@ type specEnv struct {
 	pkg      *types.Package
 	post     bool
 	callee   bool
+	calleeRecs map[string]specVal // call-record terms of a callee's contract seen from a call site: one unknown per term
 	old      *State
 	oldCache map[*SNode]specVal
 	inOld    bool
@@ -1000,6 +1001,9 @@ func (c *Ctx) evalCall(env *specEnv, n *SNode) (specVal, error) {
 		if !ok {
 			return specVal{}, fmt.Errorf("called: bad callee name")
 		}
+		if env.calleeRecs != nil {
+			return c.calleeRec(env, n, tBool), nil
+		}
 		_, ok = st.callArgs[name+"#"+n.Args[1].Text]
 		return specVal{BoolLit(ok), tBool}, nil
 	case "callrecv":
@@ -1011,6 +1015,9 @@ func (c *Ctx) evalCall(env *specEnv, n *SNode) (specVal, error) {
 			name, ok := typeTextOf(n.Args[0])
 			if !ok {
 				return specVal{}, fmt.Errorf("callrecv: bad method name")
+			}
+			if env.calleeRecs != nil {
+				return c.calleeRec(env, n, tAny), nil
 			}
 			vals, ok := st.callArgs["recv:"+name+"#"+n.Args[1].Text]
 			if !ok || len(vals) == 0 {
@@ -1030,6 +1037,9 @@ func (c *Ctx) evalCall(env *specEnv, n *SNode) (specVal, error) {
 		}
 		idx, _ := strconv.Atoi(n.Args[2].Text)
 		atyp := c.typeOfCallArg(env, name, n.Args[1].Text, idx)
+		if env.calleeRecs != nil {
+			return c.calleeRec(env, n, atyp), nil
+		}
 		vals, ok := st.callArgs[name+"#"+n.Args[1].Text]
 		if !ok || idx >= len(vals) {
 			return specVal{c.FreshConst(st, "nocall", c.Reg.SortOf(atyp)), atyp}, nil
@@ -1047,6 +1057,9 @@ func (c *Ctx) evalCall(env *specEnv, n *SNode) (specVal, error) {
 		key := name + "#" + n.Args[1].Text
 		idx, _ := strconv.Atoi(n.Args[2].Text)
 		rtyp := c.typeOfCallRes(env, name, n.Args[1].Text, idx)
+		if env.calleeRecs != nil {
+			return c.calleeRec(env, n, rtyp), nil
+		}
 		vals, ok := st.callResults[key]
 		if !ok || idx >= len(vals) {
 			// the call did not happen on this path: an arbitrary value of the right type
@@ -1413,7 +1426,7 @@ func (c *Ctx) evalPure(env *specEnv, pd *PureDef, n *SNode) (specVal, error) {
 		c.Reg.DeclFun(fn, sorts, SBool)
 		atom := T(SBool, "(%s %s)", fn, strings.Join(parts, " "))
 		if env.rdepth == 0 && pd.Body != nil {
-			sub := &specEnv{c: c, st: env.st, vars: map[string]specVal{}, pkg: pkg, fn: env.fn, frame: env.frame, rdepth: 1, pol: 1, polSet: true}
+			sub := &specEnv{c: c, st: env.st, vars: map[string]specVal{}, pkg: pkg, fn: env.fn, frame: env.frame, rdepth: 1, pol: 1, polSet: true, callee: env.callee, calleeRecs: env.calleeRecs}
 			for i, p := range pd.Params {
 				sub.vars[p[0]] = args[i]
 			}
@@ -1440,7 +1453,7 @@ func (c *Ctx) evalPure(env *specEnv, pd *PureDef, n *SNode) (specVal, error) {
 		return specVal{atom, rt}, nil
 	}
 	if pd.Body != nil {
-		sub := &specEnv{c: c, st: env.st, vars: map[string]specVal{}, pkg: pkg, fn: env.fn, post: env.post, results: env.results, old: env.old, oldCache: env.oldCache, frame: env.frame, loopHead: env.loopHead, rdepth: env.rdepth, preAlloc: env.preAlloc, oldArrays: env.oldArrays, pol: env.pol, polSet: true, assertMode: env.assertMode}
+		sub := &specEnv{c: c, st: env.st, vars: map[string]specVal{}, pkg: pkg, fn: env.fn, post: env.post, results: env.results, old: env.old, oldCache: env.oldCache, frame: env.frame, loopHead: env.loopHead, rdepth: env.rdepth, preAlloc: env.preAlloc, oldArrays: env.oldArrays, pol: env.pol, polSet: true, assertMode: env.assertMode, callee: env.callee, calleeRecs: env.calleeRecs}
 		for i, p := range pd.Params {
 			sub.vars[p[0]] = args[i]
 		}
@@ -1751,4 +1764,17 @@ func (c *Ctx) tryHoist(env *specEnv, n *SNode, out *[]*SNode) {
 	}
 	env.hoist[n] = v
 	*out = append(*out, n)
+}
+
+// calleeRec: a called/callarg/callres/callrecv term of a callee's contract, seen from a call site.
+// The caller knows nothing about the calls its callee made: the term is an unknown of its type (the
+// same unknown for every occurrence in the contract of this one call).
+func (c *Ctx) calleeRec(env *specEnv, n *SNode, typ types.Type) specVal {
+	k := n.String()
+	if v, ok := env.calleeRecs[k]; ok {
+		return v
+	}
+	v := specVal{c.FreshConst(env.st, "calleerec", c.Reg.SortOf(typ)), typ}
+	env.calleeRecs[k] = v
+	return v
 }
